@@ -21,7 +21,7 @@ RULE = ("the nine shipped tables and random custom tables (3-40 strictly ascendi
         "side (where the selected entry changes), random interior points, 0, below/beyond the table; shipped tables "
         "additionally 40 points per interval against the linear interpolant and a golden snapshot before/after library "
         "use; a case = (table, BC); non-trivial for every table (custom tables are all distinct)")
-MUST_OBSERVE = ["tables_checked", "shipped_tables_checked", "custom_tables_checked", "node_queries", "midpoint_side_queries",
+MUST_OBSERVE = ["tables_under_non_default_configuration", "tables_checked", "shipped_tables_checked", "custom_tables_checked", "node_queries", "midpoint_side_queries",
                 "beyond_table_queries", "first_interval_queries", "tables_not_starting_at_mach0", "below_table_queries", "tables_tuned_in_place_between_setups", "linear_band_points", "golden_comparisons",
                 "constant_checks"]
 ASSUMPTIONS = ["golden snapshot vf/golden/drag_tables.json (taken from the pinned commit; spot values agree with the published "
@@ -31,6 +31,11 @@ ASSUMPTIONS = ["golden snapshot vf/golden/drag_tables.json (taken from the pinne
 EPS = sys.float_info.epsilon
 K_EXACT = 0.076474 * math.pi / (8 * 144)
 GOLDEN = None
+
+
+# calculator settings under which the drag function must be exactly what it is under the defaults
+CONFIGS = [None, {"cGravityConstant": -32.0}, {"cGravityConstant": -5.32}, {"max_calc_step_size_feet": 2.0, "cMinimumVelocity": 0.0},
+           {"cGravityConstant": -9.80665, "cMaximumDrop": -5.0, "cMinimumAltitude": 0.0}, {"cZeroFindingAccuracy": 1e-3, "cMaxIterations": 5}]
 
 
 def budget(tier):
@@ -115,7 +120,9 @@ def check_table(ctx, case, thorough):
     tab = [tuple(p) for p in (golden()[case["table"]]["points"] if shipped else case["table"])]
     spec = {"table": case["table"], "bc": case["bc"], "mv_fps": 2600.0}
     shot = build.shot(spec)
-    calc = Calculator()
+    calc = Calculator(_config=dict(case["config"])) if case.get("config") else Calculator()
+    if case.get("config"):
+        ctx.count("tables_under_non_default_configuration")     # drag is a property of table and BC: no setting may enter it
     tc = calc._calc  # pylint: disable=protected-access
     if case.get("tuned_in_place"):
         # the same calculator has already set this very DragModel object up while its table and BC held other values
@@ -232,7 +239,8 @@ def run(ctx):
         check_golden(ctx, "at import")
     for n in ctx.my(TABLE_NAMES):
         for bc in ([0.05, 0.381, 1.2] if not thorough else [0.05, 0.1, 0.223, 0.381, 0.7, 1.0, 1.2]):
-            check_table(ctx, {"table": n, "bc": bc, "tuned_in_place": bc != 0.381}, thorough)
+            check_table(ctx, {"table": n, "bc": bc, "tuned_in_place": bc != 0.381,
+                              "config": CONFIGS[(TABLE_NAMES.index(n) + int(bc * 1000)) % len(CONFIGS)]}, thorough)
     if ctx.shard == 0:
         battery(ctx)
         check_golden(ctx, "after DragModel / DragModelMultiBC / zero / fire calls")
@@ -241,11 +249,13 @@ def run(ctx):
         if not ctx.time_left():
             break
         check_table(ctx, {"table": gen.custom_table(ctx.rng), "bc": round(ctx.rng.uniform(0.05, 1.2), 4),
-                          "tuned_in_place": ctx.rng.random() < 0.5}, thorough)
+                          "tuned_in_place": ctx.rng.random() < 0.5,
+                          "config": ctx.rng.choice(CONFIGS) if ctx.rng.random() < 0.3 else None}, thorough)
 
 
 def replay(ctx, case):
     if "stage" in case:
         check_golden(ctx, case["stage"])
     else:
-        check_table(ctx, {"table": case["table"], "bc": case["bc"], "tuned_in_place": case.get("tuned_in_place")}, True)
+        check_table(ctx, {"table": case["table"], "bc": case["bc"], "tuned_in_place": case.get("tuned_in_place"),
+                          "config": case.get("config")}, True)
